@@ -230,6 +230,13 @@ def run_pool(obs, seed, tier, jobs, progress=True):
                 results[i] = r
                 done += 1
                 w["task"] = None
+                if os.environ.get("VERIF_STOP_AT_FIRST") and ((r["status"] == "refuted" and r.get("replayed") is True)
+                                                                or (r["status"] == "confirmed" and r.get("native_bad"))):
+                    # seeded-change evaluation only: one replayed violation decides "caught"; the rest is not explored
+                    for j in pending:
+                        results[j] = _dead(obs[j], "skipped: VERIF_STOP_AT_FIRST after a violation")
+                        done += 1
+                    pending = []
             elif time.time() - w["t0"] > obs[w["task"]].timeout * obs[w["task"]].hard_factor + 30:
                 i = w["task"]
                 w["p"].kill()
@@ -303,6 +310,8 @@ def main(argv=None):
     ap.add_argument("--no-evidence", action="store_true")
     ap.add_argument("-v", "--verbose", action="store_true")
     a = ap.parse_args(argv)
+    if os.environ.get("VERIF_STOP_AT_FIRST"):
+        a.no_evidence = True         # a truncated exploration never writes evidence
     if a.replay:
         return replay(a.replay)
     if not a.prop:
